@@ -500,6 +500,13 @@ pub fn run_case<K: HKey>(cfg: &Cfg, prefix: &[Op], opsq: &[Op], max_nest: usize,
             vs.push(v);
         }
     }
+    let ex = EXDEV_AT.load(std::sync::atomic::Ordering::Relaxed);
+    if ex > 0 {
+        for v in vs.iter_mut() {
+            v.replay["exdev_at"] = json!(ex);
+            v.sig = format!("{}|exdev", v.sig);
+        }
+    }
     vs
 }
 
